@@ -169,12 +169,15 @@ theorem newNode_cons (cfg : Cfg) (a : Alloc) : Cons a (newNode cfg a).2 [] [(new
     | cons fp tl =>
       unfold Alloc.freeHead
       rw [hf]
-      refine ⟨Nat.le_refl _, fun x => ?_⟩
-      simp [List.count_cons, hf]
-      omega
+      refine ⟨Nat.le_refl _, fun x => ?_, ?_⟩
+      · simp [List.count_cons, hf]
+        omega
+      · simp [hf]; omega
   · simp only [hu, Bool.false_eq_true, if_false]
-    constructor
+    refine ⟨?_, ?_, ?_⟩
     · split <;> simp [bufAllocate_nextPage]
+    rotate_left
+    · split <;> rfl
     · intro x
       have hnp : ∀ b : Alloc, b.nextPage = a.nextPage + 1 → b.free = a.free →
           List.count x [a.nextPage] + List.count x b.free =
@@ -187,6 +190,14 @@ theorem newNode_cons (cfg : Cfg) (a : Alloc) : Cons a (newNode cfg a).2 [] [(new
       split
       · exact hnp _ rfl rfl
       · exact hnp _ rfl rfl
+
+theorem newNode_leafKeys (cfg : Cfg) (a : Alloc) : (newNode cfg a).2.leafKeys = a.leafKeys := by
+  unfold newNode
+  dsimp only
+  split
+  · split <;> rfl
+  · dsimp only
+    split <;> rfl
 
 /-! ## leaves and the split of a full child -/
 
@@ -202,12 +213,16 @@ theorem leafSet_spec {cfg : Cfg} (hc : CfgOk cfg) (p : Nat) (es : List (Key × V
     (ha : a.fault = none) :
     (leafSet cfg p es k v a).1 = .leaf p (ins es k v) ∧ (leafSet cfg p es k v a).2.fault = none ∧
       okNode cfg.maxKeys cfg.maxKeys (.leaf p (ins es k v)) lo hi ∧
-      (leafSet cfg p es k v a).2.nextPage = a.nextPage ∧ (leafSet cfg p es k v a).2.free = a.free := by
+      (leafSet cfg p es k v a).2.nextPage = a.nextPage ∧ (leafSet cfg p es k v a).2.free = a.free ∧
+      (leafSet cfg p es k v a).2.pagesFree = a.pagesFree ∧
+      (leafSet cfg p es k v a).2.leafKeys = a.leafKeys + (((ins es k v).length : Int) - es.length) := by
   have hlen : es.length < cfg.maxKeys := by have := h.2.2; have := hc.ge4; omega
   unfold leafSet
   rw [nodeSet_eq_ins cfg.maxKeys es k v lo h.1 hk1 (by have := hc.lt; omega) (Or.inl hlen)]
-  refine ⟨rfl, ha, ⟨ins_sorted h.1 hk1 v, ins_lastKeyIs h.2.1 h.1 hk2 v, ?_⟩, rfl, rfl⟩
-  rw [ins_length es k v lo h.1]; split <;> omega
+  refine ⟨rfl, ha, ⟨ins_sorted h.1 hk1 v, ins_lastKeyIs h.2.1 h.1 hk2 v, ?_⟩, rfl, rfl, rfl, ?_⟩
+  · rw [ins_length es k v lo h.1]; split <;> omega
+  · simp only
+    rw [ins_length es k v lo h.1]; split <;> simp <;> omega
 
 section
 variable {β : Type}
@@ -240,12 +255,20 @@ def spPids (sp : Option Split) : List Nat :=
   | none => []
   | some s => pids s.right
 
+/-- the leaf keys of the new right sibling, if the child was split -/
+def spCount (sp : Option Split) : Nat :=
+  match sp with
+  | none => 0
+  | some s => countLeafKeys s.right
+
 theorem afterChild_spec {cfg : Cfg} (hc : CfgOk cfg) (ki lo : Key) (c : Node) (a : Alloc)
     (h : okNode cfg.maxKeys cfg.maxKeys c lo ki) (ha : a.fault = none) :
     (afterChild cfg ki c a).2.1.fault = none ∧
       ChildPost cfg.maxKeys lo ki (toList c) (afterChild cfg ki c a).1 (afterChild cfg ki c a).2.2 ∧
       Cons a (afterChild cfg ki c a).2.1 (pids c)
-        (pids (afterChild cfg ki c a).1 ++ spPids (afterChild cfg ki c a).2.2) := by
+        (pids (afterChild cfg ki c a).1 ++ spPids (afterChild cfg ki c a).2.2) ∧
+      (afterChild cfg ki c a).2.1.leafKeys = a.leafKeys ∧
+      countLeafKeys (afterChild cfg ki c a).1 + spCount (afterChild cfg ki c a).2.2 = countLeafKeys c := by
   have hmk := hc.lt
   have hge := hc.ge4
   have hlen := okNode_len h
@@ -256,6 +279,7 @@ theorem afterChild_spec {cfg : Cfg} (hc : CfgOk cfg) (ki lo : Key) (c : Node) (a
     unfold splitNode
     have hf := newNode_fault cfg a
     have hN := newNode_cons cfg a
+    have hlk := newNode_leafKeys cfg a
     cases c with
     | null => exact absurd h id
     | leaf q es =>
@@ -264,14 +288,18 @@ theorem afterChild_spec {cfg : Cfg} (hc : CfgOk cfg) (ki lo : Key) (c : Node) (a
       obtain ⟨s1, s2, s3, s4, s5⟩ := split_sorted (by omega) hl h.1 h.2.1
       dsimp only
       rw [splitLeft_eq es (by omega), splitRight_eq es (by omega) hl]
-      refine ⟨by rw [hf]; exact ha, ⟨rfl, rfl, lastKeyD 0#64 (es.take (cfg.maxKeys / 2)), ⟨s1, s2, hlL⟩, ⟨s3, s4, hlR⟩, ?_, ?_, happ⟩, ?_⟩
+      refine ⟨by rw [hf]; exact ha, ⟨rfl, rfl, lastKeyD 0#64 (es.take (cfg.maxKeys / 2)), ⟨s1, s2, hlL⟩, ⟨s3, s4, hlR⟩, ?_, ?_, happ⟩, ?_, ?_, ?_⟩
       · exact maxKey_eq _ (by omega)
       · show maxKey (es.drop (cfg.maxKeys / 2)) = ki
         rw [maxKey_eq _ (by omega)]; exact s4.2
-      · refine ⟨hN.1, fun x => ?_⟩
+      · refine ⟨hN.1, fun x => ?_, hN.3⟩
         have := hN.2 x
         simp only [pids, spPids, List.count_append, List.count_cons, List.count_nil] at this ⊢
         omega
+      · exact hlk
+      · simp only [spCount]
+        rw [countLeafKeys_leaf _ _ (by omega), countLeafKeys_leaf _ _ (by omega), countLeafKeys_leaf _ _ (by omega),
+          ← List.length_append, happ]
     | inner q es =>
       have hl : es.length = cfg.maxKeys := hfull
       obtain ⟨happ, hL, hR, hlL, hlR⟩ := split_lists es cfg.maxKeys (by omega) hl
@@ -281,20 +309,23 @@ theorem afterChild_spec {cfg : Cfg} (hc : CfgOk cfg) (ki lo : Key) (c : Node) (a
       rw [okEnts_append, s5] at hoe
       dsimp only
       rw [splitLeft_eq es (by omega), splitRight_eq es (by omega) hl]
-      refine ⟨by rw [hf]; exact ha, ⟨rfl, rfl, lastKeyD 0#64 (es.take (cfg.maxKeys / 2)), ⟨hoe.1, s2, hlL⟩, ⟨hoe.2, s4, hlR⟩, ?_, ?_, ?_⟩, ?_⟩
+      refine ⟨by rw [hf]; exact ha, ⟨rfl, rfl, lastKeyD 0#64 (es.take (cfg.maxKeys / 2)), ⟨hoe.1, s2, hlL⟩, ⟨hoe.2, s4, hlR⟩, ?_, ?_, ?_⟩, ?_, ?_, ?_⟩
       · exact maxKey_eq _ (by omega)
       · show maxKey (es.drop (cfg.maxKeys / 2)) = ki
         rw [maxKey_eq _ (by omega)]; exact s4.2
       · show toListEnts _ ++ toListEnts _ = toListEnts es
         rw [← toListEnts_append, happ]
-      · refine ⟨hN.1, fun x => ?_⟩
+      · refine ⟨hN.1, fun x => ?_, hN.3⟩
         have := hN.2 x
         have hpe : pidsEnts es = pidsEnts (es.take (cfg.maxKeys / 2)) ++ pidsEnts (es.drop (cfg.maxKeys / 2)) := by
           rw [← pidsEnts_append, happ]
         simp only [pids, spPids, hpe, List.count_append, List.count_cons, List.count_nil] at this ⊢
         omega
+      · exact hlk
+      · simp only [spCount, countLeafKeys]
+        rw [← countLeafKeysEnts_append, happ]
   · simp only [hfull, decide_false, Bool.false_eq_true, if_false]
-    exact ⟨ha, ⟨okNode_of_len h (by omega), rfl⟩, Nat.le_refl _, fun x => by simp [spPids]⟩
+    exact ⟨ha, ⟨okNode_of_len h (by omega), rfl⟩, ⟨Nat.le_refl _, fun x => by simp [spPids], rfl⟩, by first | rfl | trivial, by simp [spCount]⟩
 
 /-! ## `Tree.set`, by mutual induction over the tree -/
 
@@ -324,13 +355,18 @@ theorem setNode_spec {cfg : Cfg} (hc : CfgOk cfg) : ∀ (n : Node) (lo hi k : Ke
     (setNode cfg n k v a).2.fault = none ∧ okNode cfg.maxKeys cfg.maxKeys (setNode cfg n k v a).1 lo hi ∧
       toList (setNode cfg n k v a).1 = ins (toList n) k v ∧ (setNode cfg n k v a).1.pid = n.pid ∧
       (setNode cfg n k v a).1.isLeafC = n.isLeafC ∧
-      Cons a (setNode cfg n k v a).2 (pids n) (pids (setNode cfg n k v a).1)
+      Cons a (setNode cfg n k v a).2 (pids n) (pids (setNode cfg n k v a).1) ∧
+      (setNode cfg n k v a).2.leafKeys - a.leafKeys =
+        (countLeafKeys (setNode cfg n k v a).1 : Int) - countLeafKeys n
   | .null, _, _, _, _, _, h, _, _, _ => absurd h id
   | .leaf p es, lo, hi, k, v, a, h, hk1, hk2, ha => by
-    obtain ⟨e1, e2, e3, e4, e5⟩ := leafSet_spec hc p es lo hi k v a h hk1 hk2 ha
+    obtain ⟨e1, e2, e3, e4, e5, e6, e7⟩ := leafSet_spec hc p es lo hi k v a h hk1 hk2 ha
     rw [setNode]
-    refine ⟨e2, by rw [e1]; exact e3, by rw [e1]; rfl, by rw [e1]; rfl, by rw [e1]; rfl, ?_⟩
-    rw [e1]; exact Cons.same e4 e5 _
+    refine ⟨e2, by rw [e1]; exact e3, by rw [e1]; rfl, by rw [e1]; rfl, by rw [e1]; rfl, ?_, ?_⟩
+    · rw [e1]; exact Cons.same e4 e5 e6 _
+    · have hl1 : es.length < 2 ^ 32 := by have := h.2.2; have := hc.lt; omega
+      have hl2 : (ins es k v).length < 2 ^ 32 := by have := e3.2.2; have := hc.lt; omega
+      rw [e1, e7, countLeafKeys_leaf _ _ hl1, countLeafKeys_leaf _ _ hl2]; omega
   | .inner p es, lo, hi, k, v, a, h, hk1, hk2, ha => by
     have hmk := hc.lt
     have hge := hc.ge4
@@ -351,7 +387,7 @@ theorem setNode_spec {cfg : Cfg} (hc : CfgOk cfg) : ∀ (n : Node) (lo hi k : Ke
             exact ⟨e, List.mem_cons_of_mem _ he, hee⟩
       obtain ⟨e, he, hee⟩ := this
       exact ⟨e, he, by rw [hee]; exact hk2⟩
-    obtain ⟨l, ki, c, r, c', a1, sp, heq, hes, hf, hlt, hle, hpost, hcons⟩ :=
+    obtain ⟨l, ki, c, r, c', a1, sp, heq, hes, hf, hlt, hle, hpost, hcons, hlk⟩ :=
       setEnts_spec hc es lo k v a h.1 hk1 hex ha
     -- the up-front panic test
     have hidx : setIdxPanic (w (search es k)) (w cfg.maxKeys) = false := by
@@ -379,14 +415,17 @@ theorem setNode_spec {cfg : Cfg} (hc : CfgOk cfg) : ∀ (n : Node) (lo hi k : Ke
     cases sp with
     | none =>
       obtain ⟨p1, p2⟩ := hpost
-      refine ⟨hf, ⟨okEnts_append.mpr ⟨hoe.1, p1, hoe.2.2⟩, ⟨by simp, ?_⟩, ?_⟩, ?_, rfl, rfl, ?_⟩
+      refine ⟨hf, ⟨okEnts_append.mpr ⟨hoe.1, p1, hoe.2.2⟩, ⟨by simp, ?_⟩, ?_⟩, ?_, rfl, rfl, ?_, ?_⟩
       · rw [lastKeyD_replace]; exact hlast
       · simp at hlen ⊢; omega
       · rw [toList, toList, hflat, toListEnts_append, toListEnts, p2]
-      · refine ⟨hcons.1, fun x => ?_⟩
+      · refine ⟨hcons.1, fun x => ?_, hcons.3⟩
         have := hcons.2 x
         simp only [pids, pidsEnts_append, pidsEnts, spPids, List.count_append, List.count_cons,
           List.count_nil] at this ⊢
+        omega
+      · simp only [spCount] at hlk
+        simp only [countLeafKeys, countLeafKeysEnts_append, countLeafKeysEnts]
         omega
     | some s =>
       obtain ⟨p1, p2, lm, p3, p4, p5, p6, p7⟩ := hpost
@@ -400,22 +439,26 @@ theorem setNode_spec {cfg : Cfg} (hc : CfgOk cfg) : ∀ (n : Node) (lo hi k : Ke
         rw [p1]; simp; bv_omega
       simp only [p5, p6, q1, q2]
       simp only [hcond, if_true]
-      refine ⟨hf, ⟨okEnts_append.mpr ⟨hoe.1, p3, p4, hoe.2.2⟩, ⟨by simp, ?_⟩, ?_⟩, ?_, rfl, rfl, ?_⟩
+      refine ⟨hf, ⟨okEnts_append.mpr ⟨hoe.1, p3, p4, hoe.2.2⟩, ⟨by simp, ?_⟩, ?_⟩, ?_, rfl, rfl, ?_, ?_⟩
       · rw [lastKeyD_append] at hlast ⊢; exact hlast
       · simp at hlen ⊢; omega
       · rw [toList, toList, hflat, toListEnts_append, toListEnts, toListEnts, ← p7]
         simp [List.append_assoc]
-      · refine ⟨hcons.1, fun x => ?_⟩
+      · refine ⟨hcons.1, fun x => ?_, hcons.3⟩
         have := hcons.2 x
         simp only [pids, pidsEnts_append, pidsEnts, spPids, List.count_append, List.count_cons,
           List.count_nil] at this ⊢
+        omega
+      · simp only [spCount] at hlk
+        simp only [countLeafKeys, countLeafKeysEnts_append, countLeafKeysEnts]
         omega
 theorem setEnts_spec {cfg : Cfg} (hc : CfgOk cfg) : ∀ (es : List (Key × Node)) (lo k : Key) (v : Val) (a : Alloc),
     okEnts cfg.maxKeys es lo → lo < k → (∃ e ∈ es, k ≤ e.1) → a.fault = none →
     ∃ l ki c r c' a1 sp, setEnts cfg es k v a = (l ++ (ki, c') :: r, a1, sp) ∧ es = l ++ (ki, c) :: r ∧
       a1.fault = none ∧ (∀ e ∈ l, e.1 < k) ∧ k ≤ ki ∧
       ChildPost cfg.maxKeys (lastKeyD lo l) ki (ins (toList c) k v) c' sp ∧
-      Cons a a1 (pids c) (pids c' ++ spPids sp)
+      Cons a a1 (pids c) (pids c' ++ spPids sp) ∧
+      a1.leafKeys - a.leafKeys = ((countLeafKeys c' + spCount sp : Nat) : Int) - countLeafKeys c
   | [], _, _, _, _, _, _, hex, _ => by obtain ⟨e, he, _⟩ := hex; cases he
   | (ki, c) :: rest, lo, k, v, a, h, hk1, hex, ha => by
     by_cases hhit : searchHit ki k = true
@@ -427,7 +470,7 @@ theorem setEnts_spec {cfg : Cfg} (hc : CfgOk cfg) : ∀ (es : List (Key × Node)
       refine ⟨[], ki, c, rest, (afterChild cfg ki (setNode cfg c k v a).1 (setNode cfg c k v a).2).1,
         (afterChild cfg ki (setNode cfg c k v a).1 (setNode cfg c k v a).2).2.1,
         (afterChild cfg ki (setNode cfg c k v a).1 (setNode cfg c k v a).2).2.2, ?_, rfl, hac.1, by simp, hk, ?_,
-        hn.2.2.2.2.2.trans hac.2.2⟩
+        hn.2.2.2.2.2.1.trans hac.2.2.1, ?_⟩
       · cases c with
         | null => exact absurd h.1 id
         | leaf q es' => rw [setEnts.eq_def]; simp only [hhit, hslot, if_true, Bool.false_eq_true, if_false]; rfl
@@ -435,6 +478,10 @@ theorem setEnts_spec {cfg : Cfg} (hc : CfgOk cfg) : ∀ (es : List (Key × Node)
       · have := hac.2.1
         rw [hn.2.2.1] at this
         exact this
+      · have h1 := hn.2.2.2.2.2.2
+        have h2 := hac.2.2.2.1
+        have h3 := hac.2.2.2.2
+        omega
     · have hk : ki < k := by
         have : ¬ k ≤ ki := by
           intro hle; exact hhit (by simpa [searchHit, BitVec.ule_iff_le] using hle)
@@ -444,9 +491,9 @@ theorem setEnts_spec {cfg : Cfg} (hc : CfgOk cfg) : ∀ (es : List (Key × Node)
         rcases List.mem_cons.mp he with rfl | he
         · exact absurd hke (by simp at hk ⊢; bv_omega)
         · exact ⟨e, he, hke⟩
-      obtain ⟨l, ki', c0, r, c', a1, sp, heq, hes, hf, hlt, hle, hpost, hcons⟩ :=
+      obtain ⟨l, ki', c0, r, c', a1, sp, heq, hes, hf, hlt, hle, hpost, hcons, hlk⟩ :=
         setEnts_spec hc rest ki k v a h.2 hk hex' ha
-      refine ⟨(ki, c) :: l, ki', c0, r, c', a1, sp, ?_, by rw [hes]; rfl, hf, ?_, hle, hpost, hcons⟩
+      refine ⟨(ki, c) :: l, ki', c0, r, c', a1, sp, ?_, by rw [hes]; rfl, hf, ?_, hle, hpost, hcons, hlk⟩
       · rw [setEnts.eq_def]; simp only [hhit, Bool.false_eq_true, if_false, heq]; rfl
       · intro e he
         rcases List.mem_cons.mp he with rfl | he
@@ -459,7 +506,7 @@ end
 theorem Cons.alloc {a0 a : Alloc} (cfg : Cfg) {X Y : List Nat} (h : Cons a0 a X Y) :
     Cons a0 (newNode cfg a).2 X ((newNode cfg a).1 :: Y) := by
   have hN := newNode_cons cfg a
-  refine h.trans ⟨hN.1, fun x => ?_⟩
+  refine h.trans ⟨hN.1, fun x => ?_, hN.3⟩
   have := hN.2 x
   simp only [List.count_cons, List.count_nil] at this ⊢
   omega
@@ -495,11 +542,14 @@ theorem legal_key {k : Key} (h : setKeyPanic k = false) : 0#64 < k ∧ k ≤ abs
 theorem set_spec {cfg : Cfg} (hc : CfgOk cfg) (t : Tree) (k : Key) (v : Val) (hinv : TreeInv cfg t)
     (hk : setKeyPanic k = false) :
     TreeInv cfg (set cfg t k v) ∧ toList (set cfg t k v).root = ins (toList t.root) k v ∧
-      Cons t.a (set cfg t k v).a (pids t.root) (pids (set cfg t k v).root) := by
+      Cons t.a (set cfg t k v).a (pids t.root) (pids (set cfg t k v).root) ∧
+      (set cfg t k v).a.leafKeys - t.a.leafKeys =
+        (countLeafKeys (set cfg t k v).root : Int) - countLeafKeys t.root ∧
+      (set cfg t k v).root.pid = t.root.pid := by
   have hmk := hc.lt
   have hge := hc.ge4
   obtain ⟨hk1, hk2⟩ := legal_key hk
-  obtain ⟨n1, n2, n3, n4, n5, n6⟩ := setNode_spec hc t.root 0#64 absoluteMax k v t.a hinv.ok hk1 hk2 hinv.nofault
+  obtain ⟨n1, n2, n3, n4, n5, n6, n7⟩ := setNode_spec hc t.root 0#64 absoluteMax k v t.a hinv.ok hk1 hk2 hinv.nofault
   unfold set
   simp only [hk, Bool.false_eq_true, if_false]
   have hlen := okNode_len n2
@@ -510,7 +560,7 @@ theorem set_spec {cfg : Cfg} (hc : CfgOk cfg) (t : Tree) (k : Key) (v : Val) (hi
     have hkind : (setNode cfg t.root k v t.a).1.isLeafC = false := by rw [n5]; exact hinv.root_inner
     generalize hr : setNode cfg t.root k v t.a = res at *
     obtain ⟨root, a⟩ := res
-    simp only at n1 n2 n3 n4 n6 hfull hkind hlen ⊢
+    simp only at n1 n2 n3 n4 n6 n7 hfull hkind hlen ⊢
     cases root with
     | null => exact absurd n2 id
     | leaf q es => simp [Node.isLeafC] at hkind
@@ -553,19 +603,25 @@ theorem set_spec {cfg : Cfg} (hc : CfgOk cfg) (t : Tree) (k : Key) (v : Val) (hi
         simp [ins, n1', n2']
       simp only [e1, e2]
       simp only [beq_self_eq_true, if_true]
-      refine ⟨⟨rfl, ⟨⟨hokL _, hokR _, trivial⟩, ⟨by simp, rfl⟩, by simp; omega⟩, ?_⟩, ?_, ?_⟩
+      refine ⟨⟨rfl, ⟨⟨hokL _, hokR _, trivial⟩, ⟨by simp, rfl⟩, by simp; omega⟩, ?_⟩, ?_, ?_, ?_, n4⟩
       · rw [newNode_fault, newNode_fault]; exact n1
       · rw [← n3, toList, toList, toListEnts, toListEnts, toListEnts, toList, toList, List.append_nil,
           ← toListEnts_append, happ]
       · have h2 := (n6.alloc cfg).alloc cfg
-        refine ⟨h2.1, fun x => ?_⟩
+        refine ⟨h2.1, fun x => ?_, h2.3⟩
         have := h2.2 x
         have hpe : pidsEnts es = pidsEnts (es.take (cfg.maxKeys / 2)) ++ pidsEnts (es.drop (cfg.maxKeys / 2)) := by
           rw [← pidsEnts_append, happ]
         simp only [pids, pidsEnts, hpe, List.count_append, List.count_cons, List.count_nil] at this ⊢
         omega
+      · rw [newNode_leafKeys, newNode_leafKeys]
+        have hce : countLeafKeysEnts es =
+            countLeafKeysEnts (es.take (cfg.maxKeys / 2)) + countLeafKeysEnts (es.drop (cfg.maxKeys / 2)) := by
+          rw [← countLeafKeysEnts_append, happ]
+        simp only [countLeafKeys, countLeafKeysEnts, hce] at n7 ⊢
+        omega
   · simp only [hfull, decide_false, Bool.false_eq_true, if_false]
     have hl2 : (setNode cfg t.root k v t.a).1.len ≤ cfg.maxKeys - 1 := by omega
-    exact ⟨⟨by rw [n5]; exact hinv.root_inner, okNode_of_len n2 hl2, n1⟩, n3, n6⟩
+    exact ⟨⟨by rw [n5]; exact hinv.root_inner, okNode_of_len n2 hl2, n1⟩, n3, n6, n7, n4⟩
 
 end RV.Tree
